@@ -347,7 +347,7 @@ impl PropImpl for C04 {
          with a comment, multi-line value, duplicate name or no final newline. Distinct by hash of (start, history).".into()
     }
     fn expected_labels(&self) -> Vec<&'static str> {
-        vec!["op:set-existing", "op:set-append", "op:insert", "op:remove-one", "op:remove-duplicates", "op:remove-absent", "op:rename-existing", "op:rename-absent", "start:parsed", "start:built-document", "start:built-paragraph", "start:new-document-with-added-empty-paragraphs", "start:result-of-wrap-and-sort", "start:has-comment", "start:no-final-newline", "start:duplicate-name", "uses-fresh-handles", "paragraph-emptied"]
+        vec!["op:set-existing", "op:set-append", "op:insert", "op:remove-one", "op:remove-duplicates", "op:remove-absent", "op:rename-existing", "op:rename-absent", "start:parsed", "start:built-document", "start:built-paragraph", "start:new-document-with-added-empty-paragraphs", "start:result-of-wrap-and-sort", "start:has-comment", "start:no-final-newline", "start:duplicate-name", "uses-fresh-handles", "paragraph-emptied", "op:name-equals-a-value-line-of-the-paragraph"]
     }
     fn budget(&self, tier: Tier) -> Budget {
         Budget { cases_per_lane: if tier == Tier::Quick { 30000 } else { 120000 }, tape_max: 900, cpu_s: 10 }
@@ -412,10 +412,20 @@ impl PropImpl for C04 {
         while t.more(ops.len(), 1, 10, 3, 4) {
             let p = t.below(model.len());
             let present: Vec<String> = model[p].iter().map(|x| x.0.clone()).collect();
-            let mut name = |t: &mut Tape| if !present.is_empty() && t.chance(3, 4) { t.pick(&present).clone() } else { doc::gen_name(t, true) };
+            let name = |t: &mut Tape| if !present.is_empty() && t.chance(3, 4) { t.pick(&present).clone() } else { doc::gen_name(t, true) };
+            // a value line equal to a name in use: a lookup by name must not be misled by it
+            let value = |t: &mut Tape| {
+                let v = gen_value(t);
+                if !present.is_empty() && t.chance(1, 6) {
+                    let n = t.pick(&present).clone();
+                    if n.starts_with('#') { v } else if t.flag() { n } else { format!("{}\n{}", v, n) }
+                } else {
+                    v
+                }
+            };
             let op = match t.below(4) {
-                0 => Op::Set(p, name(t), gen_value(t)),
-                1 => Op::Insert(p, name(t), gen_value(t)),
+                0 => Op::Set(p, name(t), value(t)),
+                1 => Op::Insert(p, name(t), value(t)),
                 2 => Op::Remove(p, name(t)),
                 _ => Op::Rename(p, name(t), name(t)),
             };
@@ -468,6 +478,8 @@ impl PropImpl for C04 {
             if model != before {
                 changing += 1;
             }
+            let (Op::Set(p, n, _) | Op::Remove(p, n) | Op::Rename(p, n, _) | Op::Insert(p, n, _)) = op;
+            ctx.label_if(before[*p].iter().any(|x| x.1.lines().any(|l| l == n)), "op:name-equals-a-value-line-of-the-paragraph");
             match op {
                 Op::Set(p, n, _) => ctx.label(if before[*p].iter().any(|x| &x.0 == n) { "op:set-existing" } else { "op:set-append" }),
                 Op::Insert(..) => ctx.label("op:insert"),
